@@ -30,17 +30,17 @@ TEXT = {
             "Trusts RefPoly; integer/dyadic coefficients so float arithmetic is exact; degree <= 4, <= 6 labels per run.", "DESIGN.md §3.1, §4 C05"),
     "C08": ("e2", "End-to-end workflow oracle at the end of seeded constraint histories (comparison + logical constraints, boolean and spin) with weights above max f - min f: solve_bruteforce, every minimiser of the penalised model and of its to_pubo/to_puso/to_qubo/to_quso forms must convert to a feasible assignment attaining the reference constrained optimum.",
             "Trusts RefPoly truth tables and the reference feasibility predicate; <=4 original variables, <=14 variables in any reduced form.", "DESIGN.md §3.2, §4 C08"),
-    "C11": ("e4", "Seeded call histories of the four annealers on the real C extension under simulator-owned random streams (recorded real PCG, scripted, extreme, threshold-hugging), clocks and heap poison; every result is checked exactly (count, key set, domain, spin flag, value = model(state) incl. offset, best, arguments unchanged).",
+    "C11": ("e4", "Seeded call histories of the four annealers on the real C extension under simulator-owned random streams (recorded real PCG, scripted draws, scripted raw 32-bit generator words, extreme, threshold-hugging), clocks and heap poison, with live model objects edited between calls, user-pinned mappings, omitted/default arguments and very large models from small-stack threads; every result is checked exactly (count, key set, domain, spin flag, value = model(state) incl. offset, best, arguments unchanged).",
             "Trusts RefPoly evaluation; integer/dyadic couplings; models of <= 8 variables, histories of <= 24 calls.", "DESIGN.md §3.4, §4 C11"),
-    "C12": ("e4", "Decision-exact refinement of the C kernels against a reference Metropolis chain driven by the kernel's own recorded draws (both visiting orders, scripted draws hugging every acceptance threshold), zero-temperature monotonicity, seeded twin calls across simulated clock jumps, and a Bernstein-bounded distribution test against the exact k-sweep chain with the real PCG stream.",
+    "C12": ("e4", "Decision-exact refinement of the C kernels against a reference Metropolis chain driven by the kernel's own recorded draws (both visiting orders, scripted draws hugging every acceptance threshold, infinite and zero temperatures, schedules in every container type, live models edited between calls), zero-temperature monotonicity, seeded twin calls across simulated clock jumps, and a Bernstein-bounded distribution test against the exact k-sweep chain with the real PCG stream.",
             "Trusts RefPoly energies and the 8-state exact transition matrices; statistical cell false-alarm probability <= 1e-10; refinement limited to integer-indexed Matrix inputs with a given initial state.", "DESIGN.md §3.4, §4 C12"),
-    "C13": ("e3", "Seeded search over histories of list operations on live AnnealResults objects (empty operands, self-arguments, ties, removal of the current best) against a plain-list reference, with `best` checked after every operation; sampling, not proof.",
+    "C13": ("e3", "Seeded search over histories of list operations on live AnnealResults objects (empty operands, self-arguments, ties, removal of the current best, one-shot and failing iterables) against a plain-list reference; observation is itself a recorded event (every op / sparse / only at the end) so that lazily maintained state cannot hide behind the checks; sampling, not proof.",
             "Trusts the plain-list reference model and the function tables of the harness; histories are <= 60 ops on <= 3 live collections of <= 12 elements.", "DESIGN.md §3.3, §4 C13"),
     "C14": ("e1", "Bookkeeping invariants (variables/degree/num_binary_variables upper bounds, mapping bijection, refresh exactness, label discipline of enumerated and reduced forms, ancilla-name uniqueness) checked after every edit of seeded histories on every model type, including zero assignments, cancellations and copies.",
             "Trusts RefPoly and the snapshot reader (dict.items bypassing model accessors).", "DESIGN.md §3.1, §4 C14"),
-    "C17": ("e4", "The E4 call histories executed first against a red-zone/poisoning allocator build (heap overflow, invalid/double free, leak across a verbatim repeat, poison showing up in results, interpreter crash) and then against an ASan+UBSan build of the repository's unmodified C sources; a sanitizer report or crash is the violation.",
+    "C17": ("e4", "The E4 call histories executed first against a red-zone/poisoning allocator build (heap overflow, invalid/double free, leak across a verbatim repeat, poison showing up in results, interpreter crash) and then against an ASan+UBSan build of the repository's unmodified C sources, including raw generator words a real stream emits once in 2^32 draws and models of up to 1.2 million spins; a sanitizer report or crash is the violation.",
             "Trusts ASan/UBSan and the shim allocator; signed overflow of i*len_state+j needs >= 2^31 elements and is out of reach; allocation failure is not injected.", "DESIGN.md §3.4, §4 C17"),
-    "C19": ("e1", "Non-interference under mutation of everything the API hands out, argument immutability of every pure API call, and get_info/create_from_info/copy round trips, checked by deep snapshots of every live object after every step of seeded histories, with continued mutation of both sides.",
+    "C19": ("e1", "Non-interference under mutation of everything the API hands out, argument immutability of every pure API call, and get_info/create_from_info/copy round trips, checked by deep snapshots of every live object after every step of seeded histories, with continued mutation of both sides, and with user callbacks that raise or look at the argument from inside a solver call.",
             "Trusts the deep snapshot (content comparison, key order ignored).", "DESIGN.md §3.1, §4 C19"),
 }
 
